@@ -448,7 +448,61 @@ func checkParserLoopsLeaveOnError(c *core.Ctx, rule string) {
 			})
 		}
 	}
+	// progress: every trip round an uncounted parser loop consumes input. A cycle from the loop's header back to it
+	// that passes no read from the client stream repeats with the same input for ever (the state it tests comes from
+	// the stream): the connection's goroutine spins, nothing is answered and the connection is never closed.
+	for _, rel := range parserPkgs {
+		for _, fn := range pkgFuncs(c, rel) {
+			counts := map[string]int{}
+			for _, l := range ssax.Loops(fn) {
+				if countedLoop(l) || isRangeLoop(l) {
+					continue
+				}
+				reads := false
+				for b := range l.Blocks {
+					for _, ins := range b.Instrs {
+						if call, ok := ins.(*ssa.Call); ok && isStreamRead(call) {
+							reads = true
+						}
+					}
+				}
+				if !reads {
+					continue
+				}
+				n++
+				key := ordinalKey(counts, core.FuncName(fn)+"#loop-progress")
+				bad := ""
+				for _, s := range l.Header.Succs {
+					if !l.Blocks[s] {
+						continue
+					}
+					hit, trail := (ssax.Reach{
+						Target: func(i ssa.Instruction) bool { return i.Block() == l.Header && ssax.IndexIn(i) == 0 },
+						Avoid: func(i ssa.Instruction) bool {
+							call, ok := i.(*ssa.Call)
+							return ok && isStreamRead(call)
+						},
+						Within: l.Blocks,
+					}).FromBlock(s)
+					if hit != nil {
+						bad = "the loop can go round without reading from the client stream (" + strings.Join(ssax.BlockTrail(c.P.Fset, trail), " -> ") + "): the same input is tested again for ever - the connection's goroutine spins, nothing is answered, the connection is never closed"
+					}
+				}
+				c.Check(bad == "", rule, key, c.P.Pos(l.Header.Instrs[0].Pos()), "every trip round the loop reads from the client stream", bad)
+			}
+		}
+	}
 	if n == 0 {
 		c.Info(rule, "parsers#loop-reads", "-", "no uncounted loop of the parsers reads from the client stream")
 	}
+}
+
+// isRangeLoop: the loop is driven by a range over a slice, string, map or channel (finite by construction, or blocking).
+func isRangeLoop(l *ssax.Loop) bool {
+	for b := range l.Blocks {
+		if strings.HasPrefix(b.Comment, "rangeindex") || strings.HasPrefix(b.Comment, "rangeiter") || strings.HasPrefix(b.Comment, "rangechan") {
+			return true
+		}
+	}
+	return false
 }
